@@ -195,6 +195,7 @@ fn judge_storage(m: &RefMsg, ts: Option<(u32, u32)>, prior: usize, loc: &mut Loc
 }
 
 pub fn run(ctx: &Ctx) {
+    ctx.enable_trace_pass(ctx.tier.pick(20000u64, 200000u64));
     ctx.set_rule("argument lengths: case = argument of A_full (len() vs both serialisations vs the reference layout); constructor: case = MessageConfig derived from a message of U (built message must equal the reference message, measure itself and parse back) or a non-representable configuration (length clauses only); add_storage_header: case = (message, timestamp); valid(): case = (kind, value variant)");
     ctx.assume("add_storage_header(None) reads the wall clock: only structure, ECU id and microseconds < 10^6 are judged for it");
     ctx.assume("configurations with more than 255 arguments (NOAR cannot represent them) are outside 'well-formed' and not visited");
